@@ -295,6 +295,38 @@ fn pa_strings(thorough: bool) -> Vec<Vec<u8>> {
     v
 }
 
+// ------------------------------------------------------------------ has_sequences
+
+/// `has_sequences(x, len)`: does the bit vector contain `len` consecutive ones?
+fn has_sequences_case(x: u64, len: u32) -> Result<(), String> {
+    use ssdeep::internal_comparison::block_hash_position_array_element::{has_sequences, has_sequences_const};
+    let exp = if len == 0 {
+        true
+    } else if len > 64 {
+        false
+    } else {
+        let mut run = 0u32;
+        let mut best = 0u32;
+        for i in 0..64 {
+            if (x >> i) & 1 == 1 {
+                run += 1;
+                best = best.max(run);
+            } else {
+                run = 0;
+            }
+        }
+        best >= len
+    };
+    let got = guarded(|| has_sequences(x, len))?;
+    if got != exp {
+        return Err(format!("has_sequences({:#018x}, {}) = {} expected {}", x, len, got, exp));
+    }
+    if len == 4 && has_sequences_const::<4>(x) != exp {
+        return Err(format!("has_sequences_const::<4>({:#018x}) != {}", x, exp));
+    }
+    Ok(())
+}
+
 // ------------------------------------------------------------------ driver
 
 pub fn replay(c: &Value) -> Result<(), String> {
@@ -304,6 +336,7 @@ pub fn replay(c: &Value) -> Result<(), String> {
             let path: Vec<(usize, usize)> = c["path"].as_array().ok_or("path")?.iter().map(|p| (p[0].as_u64().unwrap_or(0) as usize, p[1].as_u64().unwrap_or(0) as usize)).collect();
             run_target_path(&hs, &path)
         }
+        Some("has_sequences") => has_sequences_case(c["x"].as_u64().ok_or("x")?, c["len"].as_u64().ok_or("len")? as u32),
         Some("pa") => {
             let strs: Vec<Vec<u8>> = c["strings"].as_array().ok_or("strings")?.iter().filter_map(|s| s.as_str().map(unhex)).collect();
             let mut ops = vec![];
@@ -425,6 +458,32 @@ pub fn run(ctx: &Ctx) -> Report {
         json!({"strings": strs.len(), "depth_bound": depth, "states": bp.states, "transitions": bp.transitions,
                "expected_states_if_property_holds": strs.len() + 1, "stateright_unique": srp.unique, "stateright_next_state_calls": p_trans}),
     );
+    // has_sequences: every bit vector made of one or two runs of ones, every length 0..=66
+    let acc = par_shards(64, |s1, acc| {
+        for l1 in 0..=(64 - s1) {
+            let r1: u64 = if l1 == 0 { 0 } else if l1 == 64 { u64::MAX } else { ((1u64 << l1) - 1) << s1 };
+            let lo = s1 + l1 + 1;
+            let mut seconds: Vec<u64> = vec![0];
+            if lo < 64 {
+                for s2 in (lo..64).step_by(if thorough { 1 } else { 3 }) {
+                    for l2 in 1..=(64 - s2) {
+                        seconds.push(if l2 == 64 { u64::MAX } else { ((1u64 << l2) - 1) << s2 });
+                    }
+                }
+            }
+            for r2 in seconds {
+                let x = r1 | r2;
+                for len in 0..=66u32 {
+                    acc.evaluations += 1;
+                    acc.nontrivial += 1;
+                    if let Err(e) = has_sequences_case(x, len) {
+                        acc.violation(format!("has_sequences x={:#x} len={}", x, len), e, json!({"kind":"has_sequences","x":x,"len":len}));
+                    }
+                }
+            }
+        }
+    });
+    acc.into_report(&mut rep, "has_sequences_all_one_and_two_run_bit_vectors");
     rep.set("states", b.states + bp.states);
     rep.set("transitions", b.transitions + bp.transitions);
     rep.set("traces_validated_against_impl", traces);
